@@ -22,6 +22,14 @@
 (* counts).  The three fixes (F11a, F11c) are the elements of Variant; the *)
 (* checks run with all three, the pinned design is kept to regenerate the  *)
 (* counterexamples.  NeverNegative states why put must count first.        *)
+(*                                                                         *)
+(* The background cleanup task (MemoryCache::new_with_cleanup) is a task   *)
+(* like the others; one "sweep" operation = one tick of its interval: it   *)
+(* collects the keys of the expired entries, then for each of them removes *)
+(* the entry if it is still expired (remove_if) and subtracts it from the  *)
+(* counters.  Variant element "cleanup_live" is that design (F11g); without*)
+(* it the task works on a private copy of the map, i.e. does nothing.      *)
+(* SweepClean states what a tick is for.                                   *)
 (***************************************************************************)
 EXTENDS Integers, Sequences, FiniteSets, TLC
 
@@ -140,9 +148,42 @@ ClearAccount(t) ==
      ELSE cnt' = 0 /\ mem' = 0
   /\ Finish(t) /\ UNCHANGED <<map>>
 
+\* ---- sweep: one tick of the background cleanup task ---------------------------
+Expired(m) == {k \in Keys : m[k] # None /\ m[k].exp}
+SweepCollect(t) ==
+  /\ pc[t] = "start" /\ Cur(t).op = "sweep"
+  /\ IF "cleanup_live" \notin Variant \/ Expired(map) = {}
+     THEN Finish(t) /\ UNCHANGED <<map, cnt, mem>>
+     ELSE /\ loc' = [loc EXCEPT ![t] = [todo |-> Expired(map)]]
+          /\ Park(t, "mem.cleanup.next") /\ UNCHANGED <<map, cnt, mem>>
+\* the keys were collected in the map's iteration order, which the model does not know: any order
+SweepTry(t) ==
+  /\ pc[t] = "mem.cleanup.next"
+  /\ \E k \in loc[t].todo :
+       LET rest == loc[t].todo \ {k} IN
+       IF map[k] # None /\ map[k].exp
+       THEN /\ map' = [map EXCEPT ![k] = None]
+            /\ loc' = [loc EXCEPT ![t] = [todo |-> rest, e |-> map[k]]]
+            /\ Park(t, "mem.cleanup.removed") /\ UNCHANGED <<cnt, mem>>
+       ELSE /\ UNCHANGED <<map, cnt, mem>>
+            /\ IF rest = {} THEN Finish(t)
+               ELSE loc' = [loc EXCEPT ![t] = [todo |-> rest]] /\ Park(t, "mem.cleanup.next")
+SweepAccount(t) ==
+  /\ pc[t] = "mem.cleanup.removed"
+  /\ cnt' = cnt - 1 /\ mem' = mem - loc[t].e.size
+  /\ UNCHANGED map
+  /\ IF loc[t].todo = {} THEN Finish(t)
+     ELSE loc' = [loc EXCEPT ![t] = [todo |-> loc[t].todo]] /\ Park(t, "mem.cleanup.next")
+
+\* ---- size: reads the entry counter ---------------------------------------------
+Size(t) ==
+  /\ pc[t] = "start" /\ Cur(t).op = "size"
+  /\ Finish(t) /\ UNCHANGED <<map, cnt, mem>>
+
 Step(t) ==
   /\ Running(t)
-  /\ \/ Look(t, "get") \/ LookRemove(t, "get") \/ LookAccount(t, "get")
+  /\ \/ SweepCollect(t) \/ SweepTry(t) \/ SweepAccount(t) \/ Size(t)
+     \/ Look(t, "get") \/ LookRemove(t, "get") \/ LookAccount(t, "get")
      \/ Look(t, "contains") \/ LookRemove(t, "contains") \/ LookAccount(t, "contains")
      \/ PutStart(t) \/ PutCount(t) \/ PutInsert(t) \/ PutAccount(t)
      \/ RemStart(t) \/ RemAccount(t)
@@ -163,5 +204,7 @@ NoLostPut ==
         => \E t \in Tasks : Running(t) /\ Cur(t).op \in {"remove", "clear", "put", "put_exp"} /\ pc'[t] # pc[t]]_vars
 \* the counters never dip below zero (an AtomicUsize would wrap and make every put evict)
 NeverNegative == cnt >= 0 /\ mem >= 0
+\* a tick of the cleanup task that runs undisturbed leaves no expired entry behind
+SweepClean == (AllDone /\ \A t \in Tasks : \A i \in 1..Len(prog[t]) : prog[t][i].op = "sweep") => Expired(map) = {}
 PreBound == pre <= MaxPre
 =============================================================================
